@@ -1,5 +1,374 @@
-import DadiVerif.Model.Optim
+import DadiVerif.Lemmas.Optim
+/-!
+# C12 — optimisers honour bounds and fixed parameters and report the point they found
+
+Property theorems only (helper lemmas: `Lemmas/Optim.lean`).  They are about the definitions the driver executes:
+`projectDown/projectUp`, `objectFunc`, `evalV/evalB`, `wrapperObjective`, `runOpt`, `runWrapper`, `objectiveAtFull`,
+`perturbEntry` (Model/Optim.lean) and the GENERATED `lowerViolated … objReturn`, `downKeeps`, `upTakesFree`, `wrappers`,
+`perturbSteps`, `perturbMutatesBounds`, shape flags (Generated/Optim.lean, rewritten from dadi/Inference.py,
+dadi/NLopt_mod.py, dadi/Misc.py on every run).
+
+An optimiser is an ARBITRARY `Opt` (start, bounds ↦ a strategy mapping the history of (query, value) pairs to the next
+query or to its answer) run with arbitrary fuel: nothing is assumed about scipy / NLopt except where a hypothesis says so
+(`hq`: a local optimiser evaluates its start first; `hmem`: it answers with a point it evaluated and the value it got there;
+`hmax`: a maximiser's answer is the best value it saw).  `numpy.exp/log` are arbitrary functions with `expF (logF x) = x`
+for `x > 0` where needed.
+
+Statements that depend on what the source currently says are split in two: a semantic theorem about EVERY wrapper row with a
+decidable well-formedness flag (`startOk`, `resultOk`, …), and a `decide` over the complete generated table that every row
+of the current source has the flag.  On the pinned tree `C12_start_table` (optimize_lbfgsb starts at log(p0), F-12b),
+`C12_result_table` (opt(log_opt=True) returns exp(log(p0)), F-12a) and `C12_perturb` (boxes narrower than the 1 % margins) are FALSE
+and fail to check; the harness finds the failing calls.  (`C12_perturb_pure` and the negative-bound case of `C12_perturb` were
+false until the owner's fix 9e42d50 of `perturb_params`.)
+-/
+set_option autoImplicit false
 namespace DadiVerif
 open Optim Gen.Optim
-theorem C12_stub : (1 : Nat) = 1 := rfl
+
+/-! ## projections around fixed parameters are mutually inverse -/
+
+/-- contracting after expanding gives the free vector back (for every pattern of fixed parameters) -/
+theorem C12_down_up (fixed : Fixed) (free : List ℚ) (h : free.length = nFree fixed) :
+    projectDown (projectUp free fixed) fixed = free :=
+  down_up fixed free h
+
+example : projectDown (projectUp [7, 9] [none, some 3, none]) [none, some 3, none] = [7, 9] := by decide
+
+/-- expanding after contracting writes the fixed values over the full vector and changes nothing else … -/
+theorem C12_up_down (fixed : Fixed) (full : List ℚ) (h : full.length = fixed.length) :
+    projectUp (projectDown full fixed) fixed = overwrite full fixed :=
+  up_down fixed full h
+
+/-- … so it is the identity on vectors that carry the fixed values -/
+theorem C12_up_down_id (fixed : Fixed) (full : List ℚ) (h : full.length = fixed.length)
+    (hag : ∀ (j : ℕ) (v : ℚ), fixed[j]? = some (some v) → full[j]? = some v) :
+    projectUp (projectDown full fixed) fixed = full := by
+  rw [up_down fixed full h]
+  apply List.ext_getElem?
+  intro j
+  simp only [overwrite, List.getElem?_zipWith]
+  cases hp : full[j]? with
+  | none => simp
+  | some p =>
+    cases hf : fixed[j]? with
+    | none =>
+      have h1 := (List.getElem?_eq_some_iff.mp hp).1
+      have h2 := List.getElem?_eq_none_iff.mp hf
+      omega
+    | some f =>
+      cases f with
+      | none => simp
+      | some v => have := hag j v hf; simp_all
+
+example : projectUp (projectDown [7, 3, 9] [none, some 3, none]) [none, some 3, none] = [7, 3, 9] := by decide
+
+/-- expanding puts every fixed value at its own position, whatever the free vector -/
+theorem C12_up_fixed (fixed : Fixed) (free : List ℚ) (j : ℕ) (v : ℚ) (h : fixed[j]? = some (some v)) :
+    (projectUp free fixed)[j]? = some v :=
+  up_fixed fixed free j v h
+
+theorem C12_up_length (fixed : Fixed) (free : List ℚ) : (projectUp free fixed).length = fixed.length :=
+  up_length fixed free
+
+/-! ## `_object_func`: bound check before the model, sentinel outside -/
+
+/-- the model function is called only inside the box, and exactly at the vector with the fixed values folded in -/
+theorem C12_objective_eval (lower upper : Option Bounds) (fixed : Option Fixed) (s : ℚ) (m : ModelFn) (params pu : List ℚ)
+    (h : (objectFunc lower upper fixed s m params).2 = some pu) :
+    pu = projectUpO params fixed ∧ InBoxP lower upper pu :=
+  objectFunc_eval lower upper fixed s m params pu h
+
+/-- outside the box the model is not called and `1e8/ll_scale` is returned -/
+theorem C12_objective_outside (lower upper : Option Bounds) (fixed : Option Fixed) (s : ℚ) (m : ModelFn) (params : List ℚ)
+    (h : ¬ InBoxP lower upper (projectUpO params fixed)) :
+    objectFunc lower upper fixed s m params = (100000000 / s, none) :=
+  objectFunc_outside lower upper fixed s m params h
+
+/-- inside: `-ll/ll_scale` at the folded-in point (`-1e8` standing in for a NaN likelihood) -/
+theorem C12_objective_inside (lower upper : Option Bounds) (fixed : Option Fixed) (s : ℚ) (m : ModelFn) (params : List ℚ)
+    (h : InBoxP lower upper (projectUpO params fixed)) :
+    objectFunc lower upper fixed s m params =
+      (- ((m (projectUpO params fixed)).getD (-100000000)) / s, some (projectUpO params fixed)) := by
+  rw [objectFunc_inside lower upper fixed s m params h]
+  simp [objReturn, nanResult, outOfBoundsVal]
+
+example : objectFunc (some [some 1, none]) (some [some 5, some 2]) (some [none, some 2]) 1 (fun _ => some (-3)) [4] = (3, some [4, 2]) := by
+  norm_num [objectFunc, projectUpO, projectUp, upTakesFree, anyViolated, lowerViolated, upperViolated, objReturn]
+example : (objectFunc (some [some 1, none]) (some [some 5, some 2]) (some [none, some 2]) 10 (fun _ => some (-3)) [6]) = (10000000, none) := by
+  norm_num [objectFunc, projectUpO, projectUp, upTakesFree, anyViolated, lowerViolated, upperViolated, oobReturnUpper, outOfBoundsVal]
+
+/-- the statement order the model assumes (fixed values folded in first, both bound loops before the model call, the model
+    called with the folded-in vector, NaN guard after the likelihood), the shape of `_object_func_log` and of the projection
+    loops, as found in the current source -/
+theorem C12_source_shape :
+    objectFuncShapeOk = true ∧ objectFuncLogShapeOk = true ∧ projectShapeOk = true ∧ optReexported = true := by decide
+
+/-! ## wrappers around an arbitrary optimiser -/
+
+theorem C12_wrappers_present :
+    ∀ n ∈ ["optimize", "optimize_log", "optimize_lbfgsb", "optimize_log_lbfgsb", "optimize_log_fmin", "optimize_log_powell",
+           "optimize_cons", "optimize_grid", "opt[log_opt=False]", "opt[log_opt=True]"], n ∈ wrappers.map (·.name) := by decide
+
+private theorem toOpt_ofOpt (x : Option ℚ) : BV.toOpt (BV.ofOpt x) = x := by cases x <;> rfl
+
+private theorem evalBObj_lower (expF logF : ℚ → ℚ) (pb : Problem) (b : Bool) : evalBObj expF logF pb b .lower = pb.lower := by
+  cases h : pb.lower <;> simp [evalBObj, evalB, h, Function.comp_def, toOpt_ofOpt]
+
+private theorem evalBObj_upper (expF logF : ℚ → ℚ) (pb : Problem) (b : Bool) : evalBObj expF logF pb b .upper = pb.upper := by
+  cases h : pb.upper <;> simp [evalBObj, evalB, h, Function.comp_def, toOpt_ofOpt]
+
+
+/-- in the current source: every wrapper passes `fixed_params` on; its objective bounds are the caller's or `None`; and every
+    wrapper that gives its optimiser NO bounds (and is not the grid search, which has no bounds argument) has
+    `_object_func` test the caller's bounds -/
+theorem C12_bounds_table : ∀ w ∈ wrappers, w.objFixed = true ∧ w.objBoundsOk = true ∧
+    (w.optLower = none → w.optimizer ≠ "scipy.optimize.brute" → w.objLower = some .lower ∧ w.objUpper = some .upper) := by decide
+
+/-- **never evaluated outside the bounds** — for every wrapper that hands the caller's bounds to `_object_func`, every
+    optimiser behaviour, every fuel: each point at which the model function is called lies inside the caller's box -/
+theorem C12_no_oob_eval (w : Wrapper) (hlo : w.objLower = some .lower) (hup : w.objUpper = some .upper)
+    (expF logF : ℚ → ℚ) (pb : Problem) (m : ModelFn) (opt : Opt) (fuel : ℕ) :
+    ∀ e ∈ (runWrapper w expF logF pb m opt fuel).run.evals, InBoxP pb.lower pb.upper e := by
+  simp only [runWrapper]
+  apply runOpt_evals _ _ (InBoxP pb.lower pb.upper)
+  intro x e he
+  simp only [wrapperObjective, hlo, hup, Option.bind_some, evalBObj_lower, evalBObj_upper] at he
+  exact (objectFunc_eval _ _ _ _ _ _ _ he).2
+
+/-- for the wrappers that leave the bounds to the optimiser (L-BFGS-B, SLSQP, NLopt): in log parameterisation a query inside
+    the log-box is evaluated inside the box (`exp` monotone, `exp ∘ log = id` on positives) -/
+theorem C12_log_box (expF logF : ℚ → ℚ) (hmono : ∀ a b, a ≤ b → expF a ≤ expF b) (hexp : ∀ x, 0 < x → expF (logF x) = x)
+    (lb ub x : ℚ) (hlb : 0 < lb) (hub : 0 < ub) (h1 : logF lb ≤ x) (h2 : x ≤ logF ub) : lb ≤ expF x ∧ expF x ≤ ub := by
+  constructor
+  · have := hmono _ _ h1; rwa [hexp lb hlb] at this
+  · have := hmono _ _ h2; rwa [hexp ub hub] at this
+
+/-- **fixed parameters**: every evaluation carries every fixed value at its position -/
+theorem C12_fixed_const (w : Wrapper) (hfix : w.objFixed = true) (expF logF : ℚ → ℚ) (pb : Problem) (m : ModelFn) (opt : Opt)
+    (fuel : ℕ) (fx : Fixed) (hfx : pb.fixed = some fx) :
+    ∀ e ∈ (runWrapper w expF logF pb m opt fuel).run.evals, ∀ (j : ℕ) (v : ℚ), fx[j]? = some (some v) → e[j]? = some v := by
+  simp only [runWrapper]
+  apply runOpt_evals _ _ (fun e => ∀ (j : ℕ) (v : ℚ), fx[j]? = some (some v) → e[j]? = some v)
+  intro x e he j v hj
+  simp only [wrapperObjective, hfix, if_true] at he
+  have := (objectFunc_eval _ _ _ _ _ _ _ he).1
+  rw [this, hfx]
+  exact up_fixed fx _ j v hj
+
+
+theorem C12_result_up_table : ∀ w ∈ wrappers, w.resultIsUp = true := by decide
+
+/-- … hence carries every fixed value, whatever the optimiser answered -/
+theorem C12_fixed_result (w : Wrapper) (hup : w.resultIsUp = true) (expF logF : ℚ → ℚ) (pb : Problem) (m : ModelFn) (opt : Opt)
+    (fuel : ℕ) (fx : Fixed) (hfx : pb.fixed = some fx) (r : List ℚ)
+    (hr : (runWrapper w expF logF pb m opt fuel).result = some r) :
+    ∀ (j : ℕ) (v : ℚ), fx[j]? = some (some v) → r[j]? = some v := by
+  intro j v hj
+  simp only [runWrapper] at hr
+  cases hfin : (runOpt (wrapperObjective w expF logF pb m)
+      (opt (w.start.bind (evalV expF logF pb [])) (w.optLower.bind (evalB expF logF pb true))
+        (w.optUpper.bind (evalB expF logF pb false))) fuel []).final with
+  | none => simp [hfin] at hr
+  | some xf =>
+    simp only [hfin, Option.bind_some] at hr
+    cases hres : w.result with
+    | up e =>
+      simp only [hres, evalV, hfx, projectUpO] at hr
+      cases he : evalV expF logF pb xf.1 e with
+      | none => simp [he] at hr
+      | some u =>
+        simp only [he, Option.map_some, Option.some.injEq] at hr
+        rw [← hr]; exact up_fixed fx u j v hj
+    | _ => simp [Wrapper.resultIsUp, hres] at hup
+
+/-! ### first evaluation = the user's start -/
+
+
+/-- every wrapper of the current source that has a start vector hands over the right one (FALSE on the pinned tree:
+    `optimize_lbfgsb` passes `numpy.log(p0)` to an objective in natural parameters, F-12b) -/
+theorem C12_start_table : ∀ w ∈ wrappers, w.start.isSome = true → w.startOk = true := by decide
+
+private theorem untr_start (w : Wrapper) (expF logF : ℚ → ℚ) (hexp : ∀ x, 0 < x → expF (logF x) = x) (l : List ℚ)
+    (hpos : w.objLog = true → ∀ x ∈ l, 0 < x) :
+    (if w.objLog then (if w.objLog then l.map logF else l).map expF else (if w.objLog then l.map logF else l)) = l := by
+  cases h : w.objLog with
+  | false => simp
+  | true =>
+    simp only [if_true, List.map_map]
+    conv_rhs => rw [← List.map_id l]
+    apply List.map_congr_left
+    intro x hx
+    simp [Function.comp, hexp x (hpos h x hx)]
+
+private theorem inBox_objBounds (w : Wrapper) (hb : w.objBoundsOk = true) (expF logF : ℚ → ℚ) (pb : Problem) (v : List ℚ)
+    (hin : InBoxP pb.lower pb.upper v) :
+    InBoxP (w.objLower.bind (evalBObj expF logF pb true)) (w.objUpper.bind (evalBObj expF logF pb false)) v := by
+  simp only [Wrapper.objBoundsOk, Bool.and_eq_true, Bool.or_eq_true, beq_iff_eq] at hb
+  obtain ⟨hl, hu⟩ := hb
+  constructor
+  · rcases hl with hl | hl
+    · rw [hl]; intro bs hbs; simp at hbs
+    · rw [hl]; simpa [evalBObj_lower] using hin.1
+  · rcases hu with hu | hu
+    · rw [hu]; intro bs hbs; simp at hbs
+    · rw [hu]; simpa [evalBObj_upper] using hin.2
+
+private theorem start_eval (w : Wrapper) (hs : w.startOk = true) :
+    ∀ (expF logF : ℚ → ℚ) (pb : Problem),
+    w.start.bind (evalV expF logF pb []) =
+      some (if w.objLog then (projectDownO pb.p0 pb.fixed).map logF else projectDownO pb.p0 pb.fixed) := by
+  intro expF logF pb
+  simp only [Wrapper.startOk, beq_iff_eq] at hs
+  rw [hs]
+  cases h : w.objLog <;> simp [evalV]
+
+/-- **the first evaluation is the user's starting point** — for every wrapper row with a well-formed start, every optimiser
+    that queries its start first (`hq`), a start inside the box, positive free start values in log parameterisation:
+    the first point at which the model function is called is `p0` with the fixed values written over it -/
+theorem C12_first_eval (w : Wrapper) (hs : w.startOk = true) (hfix : w.objFixed = true) (hb : w.objBoundsOk = true)
+    (expF logF : ℚ → ℚ) (hexp : ∀ x, 0 < x → expF (logF x) = x) (pb : Problem) (m : ModelFn)
+    (hpos : w.objLog = true → ∀ x ∈ projectDownO pb.p0 pb.fixed, 0 < x)
+    (hin : InBoxP pb.lower pb.upper (startFull pb))
+    (opt : Opt) (hq : ∀ s lo up, opt (some s) lo up [] = .query s) (fuel : ℕ) :
+    (runWrapper w expF logF pb m opt (fuel + 1)).run.evals.head? = some (startFull pb) := by
+  simp only [runWrapper, start_eval w hs]
+  refine (runOpt_first _ _ fuel [] _ (hq _ _ _)).2 _ ?_
+  simp only [wrapperObjective, hfix, if_true]
+  rw [untr_start w expF logF hexp _ hpos]
+  rw [objectFunc_inside _ _ _ _ _ _ (inBox_objBounds w hb expF logF pb _ hin)]
+  rfl
+
+/-! ### the returned vector and the reported optimum -/
+
+
+/-- every wrapper of the current source assembles its result from the optimiser's answer (FALSE on the pinned tree:
+    `opt(log_opt=True)` returns `exp(log(p0))`, the start, F-12a) -/
+theorem C12_result_table : ∀ w ∈ wrappers, w.resultOk = true := by decide
+
+/-- **result assembly** — returned vector = `projectUp (untransform xopt)`, reported value = the optimiser's `fopt` -/
+theorem C12_result (w : Wrapper) (hr : w.resultOk = true) (expF logF : ℚ → ℚ) (pb : Problem) (m : ModelFn) (opt : Opt)
+    (fuel : ℕ) (x : List ℚ) (f : ℚ) (hfin : (runWrapper w expF logF pb m opt fuel).run.final = some (x, f)) :
+    (runWrapper w expF logF pb m opt fuel).result = some (projectUpO (if w.objLog then x.map expF else x) pb.fixed) ∧
+    (runWrapper w expF logF pb m opt fuel).reported = some f := by
+  simp only [Wrapper.resultOk, Bool.and_eq_true, beq_iff_eq] at hr
+  obtain ⟨hres, hrep⟩ := hr
+  simp only [runWrapper] at hfin ⊢
+  rw [hfin]
+  simp only [Option.bind_some, hres, hrep, if_true]
+  cases h : w.objLog <;> simp [evalV]
+
+private theorem objectFunc_full (lo up : Option Bounds) (fixed : Option Fixed) (s : ℚ) (m : ModelFn) (params : List ℚ) :
+    (objectFunc lo up none s m (projectUpO params fixed)).1 = (objectFunc lo up fixed s m params).1 := by
+  have h0 : projectUpO (projectUpO params fixed) none = projectUpO params fixed := rfl
+  unfold objectFunc
+  simp only [h0]
+  first
+    | done
+    | (split_ifs <;> rfl)
+
+/-- the wrapper's objective at a free vector is its objective at the expanded, un-transformed full vector -/
+theorem C12_objective_at_full (w : Wrapper) (hfix : w.objFixed = true) (expF logF : ℚ → ℚ) (pb : Problem) (m : ModelFn)
+    (x : List ℚ) :
+    objectiveAtFull w expF logF pb m (projectUpO (if w.objLog then x.map expF else x) pb.fixed) =
+      (wrapperObjective w expF logF pb m x).1 := by
+  simp only [objectiveAtFull, wrapperObjective, hfix, if_true, objectFunc_full]
+
+/-- **the reported optimum is the likelihood of the returned parameters** — if the optimiser answers with a point it
+    evaluated and the value it got there (`hmem`), the objective (−ll/ll_scale, or ll for `opt`) recomputed at the
+    RETURNED full vector equals the REPORTED value, in natural and in log parameterisation alike -/
+theorem C12_reported_is_ll_of_result (w : Wrapper) (hr : w.resultOk = true) (hfix : w.objFixed = true)
+    (expF logF : ℚ → ℚ) (pb : Problem) (m : ModelFn) (opt : Opt) (fuel : ℕ) (x : List ℚ) (f : ℚ)
+    (hfin : (runWrapper w expF logF pb m opt fuel).run.final = some (x, f))
+    (hmem : (x, f) ∈ (runWrapper w expF logF pb m opt fuel).run.history) :
+    ∃ r, (runWrapper w expF logF pb m opt fuel).result = some r ∧
+         (runWrapper w expF logF pb m opt fuel).reported = some f ∧
+         objectiveAtFull w expF logF pb m r = f := by
+  obtain ⟨h1, h2⟩ := C12_result w hr expF logF pb m opt fuel x f hfin
+  refine ⟨_, h1, h2, ?_⟩
+  rw [C12_objective_at_full w hfix]
+  simp only [runWrapper] at hmem
+  exact (runOpt_history _ _ _ _ _ hmem).symm
+
+/-- **`opt` is no worse than its start** — a maximiser that answers with the best value it saw (`hmax`) and queries its start
+    first returns parameters whose objective is at least the objective at the user's starting point -/
+theorem C12_no_worse (w : Wrapper) (hs : w.startOk = true) (hr : w.resultOk = true) (hfix : w.objFixed = true)
+    (expF logF : ℚ → ℚ) (hexp : ∀ x, 0 < x → expF (logF x) = x) (pb : Problem) (m : ModelFn)
+    (hpos : w.objLog = true → ∀ x ∈ projectDownO pb.p0 pb.fixed, 0 < x)
+    (opt : Opt) (hq : ∀ s lo up, opt (some s) lo up [] = .query s) (fuel : ℕ) (x : List ℚ) (f : ℚ)
+    (hfin : (runWrapper w expF logF pb m opt (fuel + 1)).run.final = some (x, f))
+    (hmem : (x, f) ∈ (runWrapper w expF logF pb m opt (fuel + 1)).run.history)
+    (hmax : ∀ q ∈ (runWrapper w expF logF pb m opt (fuel + 1)).run.history, q.2 ≤ f) :
+    ∃ r, (runWrapper w expF logF pb m opt (fuel + 1)).result = some r ∧
+         objectiveAtFull w expF logF pb m (startFull pb) ≤ objectiveAtFull w expF logF pb m r := by
+  obtain ⟨r, h1, _, h3⟩ := C12_reported_is_ll_of_result w hr hfix expF logF pb m opt (fuel + 1) x f hfin hmem
+  refine ⟨r, h1, ?_⟩
+  rw [h3]
+  -- the first history entry is the start, answered with the objective at the start
+  have hfirst := (runOpt_first (wrapperObjective w expF logF pb m)
+      (opt (w.start.bind (evalV expF logF pb [])) (w.optLower.bind (evalB expF logF pb true))
+        (w.optUpper.bind (evalB expF logF pb false))) fuel []
+      (if w.objLog then (projectDownO pb.p0 pb.fixed).map logF else projectDownO pb.p0 pb.fixed)
+      (by rw [start_eval w hs]; exact hq _ _ _)).1
+  have hin : ((if w.objLog then (projectDownO pb.p0 pb.fixed).map logF else projectDownO pb.p0 pb.fixed),
+      (wrapperObjective w expF logF pb m
+        (if w.objLog then (projectDownO pb.p0 pb.fixed).map logF else projectDownO pb.p0 pb.fixed)).1) ∈
+      (runWrapper w expF logF pb m opt (fuel + 1)).run.history := by
+    simp only [runWrapper]
+    exact List.mem_of_mem_head? hfirst
+  have hle := hmax _ hin
+  simp only at hle
+  rw [← C12_objective_at_full w hfix, untr_start w expF logF hexp _ hpos] at hle
+  exact hle
+
+/-! ## the clause tests executed on every recorded trace mean what the theorems say -/
+
+/-- `checkTrace`'s box test (tolerance 0) is the pointwise box `InBoxP` of `C12_no_oob_eval` -/
+theorem C12_checked_box (pb : Problem) (v : List ℚ) : inBox 0 pb v = true ↔ InBoxP pb.lower pb.upper v :=
+  inBox_zero_iff pb v
+
+/-- `checkTrace`'s fixed-value test is the statement of `C12_fixed_const` / `C12_fixed_result` (plus: full length) -/
+theorem C12_checked_fixed (fx : Fixed) (v : List ℚ) :
+    fixedOk (some fx) v = true ↔ v.length = fx.length ∧ ∀ (j : ℕ) (c : ℚ), fx[j]? = some (some c) → v[j]? = some c :=
+  fixedOk_iff fx v
+
+/-! ## `Misc.perturb_params` -/
+
+/-- **perturbed starting points stay within the bounds** — for every draw, every entry, every sign of the bounds, every box
+    however narrow (`lb ≤ ub`), absent bounds included.  FALSE on the current tree for a box narrower than the two 1 % margins
+    (`ub - 0.01|ub| < lb`: the second clamp pushes the value below the lower bound); before the owner's fix 9e42d50 also for
+    negative bounds (`1.01*lb < lb`, F-12d). -/
+theorem C12_perturb (p : ℚ) (lb ub : Option ℚ) (h : ∀ l u, lb = some l → ub = some u → l ≤ u) :
+    (∀ l, lb = some l → l ≤ perturbEntry perturbSteps p lb ub) ∧ (∀ u, ub = some u → perturbEntry perturbSteps p lb ub ≤ u) := by
+  cases lb with
+  | none =>
+    cases ub with
+    | none => simp
+    | some u =>
+      simp [perturbEntry, perturbSteps, ratMax, ratMin, ratAbs]
+      try (split_ifs <;> nlinarith)
+  | some l =>
+    cases ub with
+    | none =>
+      simp [perturbEntry, perturbSteps, ratMax, ratMin, ratAbs]
+      try (split_ifs <;> nlinarith)
+    | some u =>
+      have hlu := h l u rfl rfl
+      simp [perturbEntry, perturbSteps, ratMax, ratMin, ratAbs]
+      try (constructor <;> split_ifs <;> nlinarith)
+
+/-- what holds on the current tree as well: any sign of the bounds, a box at least as wide as the two 1 % margins -/
+theorem C12_perturb_partial (p l u : ℚ) (hwide : l + 1 / 100 * ratAbs l ≤ u - 1 / 100 * ratAbs u) :
+    l ≤ perturbEntry perturbSteps p (some l) (some u) ∧ perturbEntry perturbSteps p (some l) (some u) ≤ u := by
+  simp only [ratAbs] at hwide
+  simp [perturbEntry, perturbSteps, ratMax, ratMin, ratAbs]
+  constructor <;> split_ifs at hwide ⊢ <;> nlinarith
+
+example : (-4 : ℚ) + 1 / 100 * ratAbs (-4) ≤ -1 - 1 / 100 * ratAbs (-1) := by norm_num [ratAbs]
+
+/-- `perturb_params` does not write into the bound lists of its caller (was FALSE before the owner's fix 9e42d50, F-20b) -/
+theorem C12_perturb_pure : perturbMutatesBounds = false := by decide
+
+/-- `None` entries of the bound lists are turned into ∓inf before use; the draw has the documented shape -/
+theorem C12_perturb_shape : perturbNoneIsInf = true ∧ perturbDrawShapeOk = true := by decide
+
 end DadiVerif
